@@ -35,6 +35,7 @@ theorem applyW_clock_id (op : WOp) (r : Regs) (l : Log) :
   cases op with
   | append pc h tag => rfl
   | setIdentity c => rfl
+  | refuse => rfl
   | join oid size =>
     simp only [applyW]
     split
@@ -60,6 +61,7 @@ theorem step_idInv {w0 w w' : World} {t : Tid} (I : IdInv w0 w) (hs : step w t =
       cases op with
       | append pc h tag => exact I l'
       | join oid size => exact I l'
+      | refuse => exact I l'
       | setIdentity c => rfl
     · rw [upd_other _ _ hl, upd_other _ _ hl]; exact I l'
   | lockAcq l rest hr hw hrd hp =>
